@@ -1,7 +1,7 @@
 (* C01Theorems.v — the property theorems of C01 (decode then encode is lossless outside reserved fields).
    Each is closed by `exact <lemma>` and followed by Print Assumptions (audited by ./check on every run). *)
 From V.lib Require Import Base.
-From V.c01 Require Import C01Codec C01Model C01LeafProofs C01TreeProofs C01Witness.
+From V.c01 Require Import C01Codec C01Model C01LeafProofs C01Leaf2Proofs C01TableProofs C01TreeProofs C01Witness.
 
 (* a compact header written by EncodeHeaderSW is read back by DecodeHeaderSR *)
 Theorem C01_header_rt : forall name sz r, lenN name = 4 -> 8 <= sz < 4294967296 ->
@@ -53,6 +53,53 @@ Theorem C01_leaf_lossless_hdlr : leaf_lossless dec_hdlr. Proof. exact lossless_h
 Print Assumptions C01_leaf_lossless_hdlr.
 Theorem C01_leaf_lossless_stts : leaf_lossless dec_stts. Proof. exact lossless_stts. Qed.
 Print Assumptions C01_leaf_lossless_stts.
+
+(* stage 2 leaf kinds *)
+Theorem C01_leaf_lossless_stsc : leaf_lossless dec_stsc. Proof. exact lossless_stsc. Qed.
+Print Assumptions C01_leaf_lossless_stsc.
+Theorem C01_leaf_lossless_stsz : leaf_lossless dec_stsz. Proof. exact lossless_stsz. Qed.
+Print Assumptions C01_leaf_lossless_stsz.
+Theorem C01_leaf_lossless_stco_stss : leaf_lossless (dec_tab 4). Proof. exact (lossless_tab 4). Qed.
+Print Assumptions C01_leaf_lossless_stco_stss.
+Theorem C01_leaf_lossless_co64 : leaf_lossless (dec_tab 8). Proof. exact (lossless_tab 8). Qed.
+Print Assumptions C01_leaf_lossless_co64.
+Theorem C01_leaf_lossless_sdtp : leaf_lossless dec_sdtp. Proof. exact lossless_sdtp. Qed.
+Print Assumptions C01_leaf_lossless_sdtp.
+Theorem C01_leaf_lossless_ctts : leaf_lossless dec_ctts. Proof. exact lossless_ctts. Qed.
+Print Assumptions C01_leaf_lossless_ctts.
+Theorem C01_leaf_lossless_elst : leaf_lossless dec_elst. Proof. exact lossless_elst. Qed.
+Print Assumptions C01_leaf_lossless_elst.
+Theorem C01_leaf_lossless_saiz : leaf_lossless dec_saiz. Proof. exact lossless_saiz. Qed.
+Print Assumptions C01_leaf_lossless_saiz.
+Theorem C01_leaf_lossless_saio : leaf_lossless dec_saio. Proof. exact lossless_saio. Qed.
+Print Assumptions C01_leaf_lossless_saio.
+Theorem C01_leaf_lossless_sbgp : leaf_lossless dec_sbgp. Proof. exact lossless_sbgp. Qed.
+Print Assumptions C01_leaf_lossless_sbgp.
+Theorem C01_leaf_lossless_prft : leaf_lossless dec_prft. Proof. exact lossless_prft. Qed.
+Print Assumptions C01_leaf_lossless_prft.
+Theorem C01_leaf_lossless_tenc : leaf_lossless dec_tenc. Proof. exact lossless_tenc. Qed.
+Print Assumptions C01_leaf_lossless_tenc.
+Theorem C01_leaf_lossless_frma : leaf_lossless dec_frma. Proof. exact lossless_frma. Qed.
+Print Assumptions C01_leaf_lossless_frma.
+Theorem C01_leaf_lossless_vmhd : leaf_lossless dec_vmhd. Proof. exact lossless_vmhd. Qed.
+Print Assumptions C01_leaf_lossless_vmhd.
+Theorem C01_leaf_lossless_smhd : leaf_lossless dec_smhd. Proof. exact lossless_smhd. Qed.
+Print Assumptions C01_leaf_lossless_smhd.
+Theorem C01_leaf_lossless_nmhd_sthd : leaf_lossless dec_fullonly. Proof. exact lossless_fullonly. Qed.
+Print Assumptions C01_leaf_lossless_nmhd_sthd.
+Theorem C01_leaf_lossless_mfro : leaf_lossless dec_mfro. Proof. exact lossless_mfro. Qed.
+Print Assumptions C01_leaf_lossless_mfro.
+Theorem C01_leaf_lossless_mehd : leaf_lossless dec_mehd. Proof. exact lossless_mehd. Qed.
+Print Assumptions C01_leaf_lossless_mehd.
+Theorem C01_leaf_lossless_tfra : leaf_lossless dec_tfra. Proof. exact lossless_tfra. Qed.
+Print Assumptions C01_leaf_lossless_tfra.
+Theorem C01_leaf_lossless_pssh : leaf_lossless dec_pssh. Proof. exact lossless_pssh. Qed.
+Print Assumptions C01_leaf_lossless_pssh.
+
+(* the dispatch table as a whole: every registered entry of the model is lossless and names its leaf *)
+Theorem C01_leaf_table : Forall entry_ok leaf_table.
+Proof. exact leaf_table_ok. Qed.
+Print Assumptions C01_leaf_table.
 
 (* the tree: every slice accepted by the model of DecodeBoxSR whose tree is exact (compact headers whose size
    is Size(), guarded versions, no moov re-ordering, moof encodable) is reproduced bit for bit by the encoders
